@@ -51,7 +51,7 @@ def run(tier, seed):
     quick = tier == "quick"
     rng = random.Random(seed)
     chk = dplib.DataPathCheck(PROP, tier, seed)
-    c01.standard_families(chk, tier, seed, rng, nrand_quick=40, nrand_thorough=1000, explore=not quick)
+    c01.standard_families(chk, tier, seed, rng, nrand_quick=40, nrand_thorough=1000, explore=not quick, matrix=(2, True))
     n = 50 if quick else 1200
     scs = crash_scenarios(rng, "v1", n, 4 if quick else 8) + crash_scenarios(rng, "v2", n, 4 if quick else 8)
     chk.run(scs, name="crash")
